@@ -14,6 +14,7 @@ from vf import gen as G, oracle as O, snapshot as S
 from vf.checks.common import Case, call, exc_text
 
 ID = "C04"
+TECHNIQUE = "runtime monitoring: reference-model monitor (exact Green moments, documented quadrature rule as one-sided bound)"
 LEVEL = "exploration"
 RULE = ("random shapes of all kinds (simple, connected with holes, disjoint, unbounded) off-centre so that no moment vanishes "
         "by symmetry: polygons int/Fraction/float (triangles, non-convex, rectilinear), n-arc circles, Bezier blobs of degree "
